@@ -196,7 +196,24 @@ def is_lambda(a_function: CallableT) -> bool:
 
     :return: True if condition is defined as lambda function
     """
-    return a_function.__name__ == "<lambda>"
+    # A callable which is not a function (*e.g.*, a ``functools.partial`` or an instance of a class defining
+    # ``__call__``) does not need to have a name.
+    return getattr(a_function, "__name__", None) == "<lambda>"
+
+
+def _name_of_condition(condition: CallableT) -> str:
+    """Determine the name of the condition which is not a lambda function."""
+    name = getattr(condition, "__name__", None)
+    if isinstance(name, str):
+        return name
+
+    # ``functools.partial`` and similar wrappers refer to the wrapped function in ``func``.
+    func = getattr(condition, "func", None)
+    if func is not None and callable(func):
+        return _name_of_condition(condition=func)
+
+    # Fall back to the name of the class for callable objects.
+    return type(condition).__name__
 
 
 class ConditionLambdaInspection:
@@ -573,7 +590,7 @@ def represent_condition(condition: CallableT) -> str:
     """Represent the condition as a string."""
     lambda_inspection = None  # type: Optional[ConditionLambdaInspection]
     if not is_lambda(a_function=condition):
-        condition_repr = condition.__name__
+        condition_repr = _name_of_condition(condition=condition)
     else:
         # We need to extract the source code corresponding to the decorator since inspect.getsource() is broken with
         # lambdas.
@@ -596,7 +613,7 @@ def generate_message(contract: Contract, resolved_kwargs: Mapping[str, Any]) -> 
 
     lambda_inspection = None  # type: Optional[ConditionLambdaInspection]
     if not is_lambda(a_function=contract.condition):
-        condition_text = contract.condition.__name__
+        condition_text = _name_of_condition(condition=contract.condition)
     else:
         # We need to extract the source code corresponding to the decorator since inspect.getsource() is broken with
         # lambdas.
